@@ -69,4 +69,14 @@ def readL (a : LArchive) (n : String) : Option Blob := (findLatest a a.length n)
 def plain (a : Archive) : LArchive := a.map (fun e => (e.1, Member.data e.2))
 
 
+/-- `tar` on a folder whose files are (name, inode): the first name of an inode is stored with the data, every later name of the
+  same inode as a hard link to that first name (`seen` : inode ↦ first name) -/
+def packStep (content : Nat → Blob) (st : LArchive × List (Nat × String)) (f : String × Nat) : LArchive × List (Nat × String) :=
+  match st.2.find? (fun s => s.1 == f.2) with
+  | some s => (st.1 ++ [(f.1, Member.hard s.2)], st.2)
+  | none => (st.1 ++ [(f.1, Member.data (content f.2))], (f.2, f.1) :: st.2)
+
+def packInodes (content : Nat → Blob) (files : List (String × Nat)) : LArchive := (files.foldl (packStep content) ([], [])).1
+
+
 end Kapture.C12
